@@ -227,123 +227,215 @@ def r11_2(ctx: Ctx) -> RuleResult:
     return rr
 
 
+class _Sym:
+    """Symbolic evaluation of a compound find* implementation in a small sequence algebra.
+
+    Terms (strings): `R(self.path)`, `R(PATH)` - the result of one operand evaluated with
+    (data, filter_context=filter_context); `concat(a, b)`; `objs(a)` - the values of the matches of a;
+    `keep(a, KEY, c)` - the elements of a whose KEY (`self` or `obj`) is in c; `if(U, a, b)` - a when the
+    operator is the union token, else b; `ACC:x` - the value of x at the start of an iteration.
+    """
+
+    FINDERS = ("findall", "finditer", "findall_async", "finditer_async")
+
+    def __init__(self, ctx: Ctx, fn: FuncInfo) -> None:
+        self.ctx = ctx
+        self.fn = fn
+        self.problems: List[str] = []
+        self.init: Dict[str, str] = {}
+        self.step: Dict[str, str] = {}
+        self.result: Optional[str] = None
+        self.loops = 0
+
+    # ------------------------------------------------------------ expressions
+    def expr(self, e: ast.expr, env: Dict[str, str]) -> str:
+        if isinstance(e, ast.Await):
+            return self.expr(e.value, env)
+        if isinstance(e, ast.Name):
+            return env.get(e.id, f"?{e.id}")
+        p = path_of(e)
+        if p == "self.path":
+            return "self.path"
+        if isinstance(e, ast.Call):
+            name = callee_name(e)
+            if isinstance(e.func, ast.Attribute) and name in self.FINDERS:
+                recv = self.expr(e.func.value, env)
+                if name != self.fn.name:
+                    return f"?{recv}.{name}(...)"
+                if not _forwards(e, ["data"], ["filter_context"]):
+                    return f"?{recv}.{name}({short(e, 60)}: arguments not forwarded)"
+                return f"R({recv})"
+            if name in ("chain", "_achain") and e.args and not e.keywords:
+                terms = [self.expr(a, env) for a in e.args]
+                out = terms[0]
+                for t in terms[1:]:
+                    out = f"concat({out}, {t})"
+                return out
+            if name in ("_alist", "list", "iter", "tuple") and len(e.args) == 1 and not e.keywords:
+                return self.expr(e.args[0], env)
+            helper = self._helper(e)
+            if helper is not None:
+                return self.generator(helper, [self.expr(a, env) for a in e.args])
+            return f"?{short(e, 50)}"
+        if isinstance(e, (ast.ListComp, ast.GeneratorExp)) and len(e.generators) == 1:
+            g = e.generators[0]
+            src = self.expr(g.iter, env)
+            elem = path_of(g.target)
+            return self.filtered(src, elem, e.elt, g.ifs, env)
+        return f"?{short(e, 50)}"
+
+    def filtered(self, src: str, elem: Optional[str], elt: ast.expr, conds: List[ast.expr], env: Dict[str, str]) -> str:
+        ep = path_of(elt)
+        if elem is None or ep not in (elem, f"{elem}.obj"):
+            return f"?map({src}, {short(elt, 30)})"
+        term = src
+        for c in conds:
+            if isinstance(c, ast.Compare) and len(c.ops) == 1 and isinstance(c.ops[0], ast.In) and path_of(c.left) in (elem, f"{elem}.obj"):
+                key = "self" if path_of(c.left) == elem else "obj"
+                term = f"keep({term}, {key}, {self.expr(c.comparators[0], env)})"
+            else:
+                term = f"?filter({term}, {short(c, 40)})"
+        if ep == f"{elem}.obj":
+            term = f"objs({term})"
+        return term
+
+    def _helper(self, e: ast.Call) -> Optional[FuncInfo]:
+        site = self.ctx.callgraph.by_node.get(id(e))
+        if site is not None and len(site.callees) == 1 and site.callees[0].qualname.startswith("jsonpath."):
+            return site.callees[0]
+        return None
+
+    def generator(self, helper: FuncInfo, args: List[str]) -> str:
+        """`for x in P: [if x.K not in C: continue] yield x`  ->  keep(P, K, C)."""
+        params = [a.arg for a in helper.node.args.args]
+        if helper.cls is not None and params and params[0] in ("self", "cls"):
+            params = params[1:]
+        if len(params) != len(args):
+            return f"?{helper.name}(...)"
+        env = dict(zip(params, args))
+        body = _strip_docstring(helper.node.body)
+        if len(body) != 1 or not isinstance(body[0], (ast.For, ast.AsyncFor)):
+            return f"?{helper.name}(...)"
+        loop = body[0]
+        elem = path_of(loop.target)
+        src = self.expr(loop.iter, env)
+        conds: List[ast.expr] = []
+        stmts = list(loop.body)
+        from sa.canon import negate
+
+        while stmts and isinstance(stmts[0], ast.If) and not stmts[0].orelse and len(stmts[0].body) == 1 and isinstance(stmts[0].body[0], ast.Continue):
+            conds.append(negate(stmts[0].test))
+            stmts = stmts[1:]
+        if len(stmts) == 1 and isinstance(stmts[0], ast.If) and not stmts[0].orelse:
+            conds.append(stmts[0].test)
+            stmts = stmts[0].body
+        if len(stmts) != 1 or not (isinstance(stmts[0], ast.Expr) and isinstance(stmts[0].value, ast.Yield) and stmts[0].value.value is not None):
+            return f"?{helper.name}(...)"
+        return self.filtered(src, elem, stmts[0].value.value, conds, env)
+
+    # ------------------------------------------------------------- statements
+    def cond(self, t: ast.expr, env: Dict[str, str]) -> str:
+        if isinstance(t, ast.Compare) and len(t.ops) == 1 and isinstance(t.ops[0], ast.Eq):
+            l, r = self.expr(t.left, env) if isinstance(t.left, ast.Name) else path_of(t.left), path_of(t.comparators[0])
+            l2 = path_of(t.left) if not isinstance(t.left, ast.Name) else None
+            if (l == "OP" and r == "self.env.union_token") or (l2 == "self.env.union_token" and self.expr(t.comparators[0], env) == "OP"):
+                return "U"
+            if (l == "OP" and r == "self.env.intersection_token"):
+                return "I"
+        return f"?{short(t, 50)}"
+
+    def block(self, body: List[ast.stmt], env: Dict[str, str]) -> Optional[Dict[str, str]]:
+        for s in body:
+            if isinstance(s, ast.Expr) and isinstance(s.value, ast.Constant):
+                continue
+            if isinstance(s, ast.Assert):
+                continue
+            if isinstance(s, (ast.Assign, ast.AnnAssign)) and (isinstance(s, ast.Assign) and len(s.targets) == 1 or isinstance(s, ast.AnnAssign)):
+                tgt = s.targets[0] if isinstance(s, ast.Assign) else s.target
+                if isinstance(tgt, ast.Name) and s.value is not None:
+                    env[tgt.id] = self.expr(s.value, env)
+                    continue
+            if isinstance(s, ast.Expr) and isinstance(s.value, ast.Call) and callee_name(s.value) == "extend" and isinstance(
+                s.value.func, ast.Attribute) and isinstance(s.value.func.value, ast.Name) and len(s.value.args) == 1:
+                n = s.value.func.value.id
+                env[n] = f"concat({env.get(n, '?' + n)}, {self.expr(s.value.args[0], env)})"
+                continue
+            if isinstance(s, ast.If):
+                # the single loader of R11.7 is not part of the plan
+                if not s.orelse and all(isinstance(x, ast.Assign) and isinstance(x.value, ast.Call) and callee_name(x.value) == "load_data" for x in s.body):
+                    continue
+                c = self.cond(s.test, env)
+                a = self.block(s.body, dict(env))
+                b = self.block(s.orelse, dict(env))
+                if a is None or b is None:
+                    self.problems.append("a branch of the plan returns or is not understood")
+                    return None
+                for k in sorted(set(a) | set(b)):
+                    va, vb = a.get(k, f"?unbound {k}"), b.get(k, f"?unbound {k}")
+                    if c == "I":
+                        env[k] = va if va == vb else f"if(U, {vb}, {va})"
+                    else:
+                        env[k] = va if va == vb else f"if({c}, {va}, {vb})"
+                continue
+            if isinstance(s, (ast.For, ast.AsyncFor)):
+                self.loops += 1
+                if path_of(s.iter) != "self.paths" or not (isinstance(s.target, ast.Tuple) and len(s.target.elts) == 2
+                                                           and all(isinstance(x, ast.Name) for x in s.target.elts)):
+                    self.problems.append("does not iterate `for op, path in self.paths`")
+                    return None
+                assigned = {n.id for x in s.body for n in ast.walk(x) if isinstance(n, ast.Name) and isinstance(n.ctx, ast.Store)}
+                assigned |= {x.value.func.value.id for x in ast.walk(s) if isinstance(x, ast.Expr) and isinstance(x.value, ast.Call)
+                             and isinstance(x.value.func, ast.Attribute) and isinstance(x.value.func.value, ast.Name)
+                             and x.value.func.attr in ("extend", "append")}
+                env2 = dict(env)
+                carried = sorted(k for k in assigned if k in env)
+                for k in carried:
+                    env2[k] = f"ACC:{k}"
+                env2[s.target.elts[0].id] = "OP"  # type: ignore[attr-defined]
+                env2[s.target.elts[1].id] = "PATH"  # type: ignore[attr-defined]
+                out = self.block(s.body, env2)
+                if out is None:
+                    return None
+                for k in carried:
+                    self.init[k] = env[k]
+                    self.step[k] = out[k]
+                    env[k] = f"fold:{k}"
+                continue
+            if isinstance(s, ast.Return) and s.value is not None:
+                self.result = self.expr(s.value, env)
+                return None
+            self.problems.append(f"statement not understood: `{short(s, 60)}`")
+            return None
+        return env
+
+
 def _plan(ctx: Ctx, fn: FuncInfo) -> Tuple[Dict[str, str], List[str]]:
     """Abstract a compound find* implementation into its combination plan."""
-    problems: List[str] = []
+    sym = _Sym(ctx, fn)
+    sym.block(_strip_docstring(fn.node.body), {})
     plan: Dict[str, str] = {}
-    base = fn.name
-    body = _strip_docstring(fn.node.body)
-    # a leading `if isinstance(data, IOBase): data = load_data(data)` is the single loader (R11.7)
-    body = [
-        s for s in body
-        if not (isinstance(s, ast.If) and not s.orelse and all(
-            isinstance(x, ast.Assign) and isinstance(x.value, ast.Call) and callee_name(x.value) == "load_data" for x in s.body))
-    ]
-    init = [s for s in body if isinstance(s, ast.Assign)]
-    loops = [s for s in body if isinstance(s, (ast.For, ast.AsyncFor))]
-    rets = [s for s in body if isinstance(s, ast.Return)]
-    if not init or len(loops) != 1 or len(rets) != 1:
-        return plan, ["not `acc = ...; for op, path in self.paths: ...; return acc`"]
-    acc = path_of(init[0].targets[0])
-    iv = init[0].value.value if isinstance(init[0].value, ast.Await) else init[0].value
-    if not (
-        isinstance(iv, ast.Call) and isinstance(iv.func, ast.Attribute) and path_of(iv.func.value) == "self.path"
-        and iv.func.attr == base and _forwards(iv, ["data"], ["filter_context"])
-    ):
-        problems.append(f"accumulator is not self.path.{base}(data, filter_context=filter_context)")
-    plan["init"] = "self.path"
-    loop = loops[0]
-    if path_of(loop.iter) != "self.paths" or not (isinstance(loop.target, ast.Tuple) and len(loop.target.elts) == 2):
-        problems.append("does not iterate `for op, path in self.paths`")
+    problems = list(sym.problems)
+    res = sym.result or ""
+    if not res.startswith("fold:") or sym.loops != 1:
+        problems.append(f"does not return the accumulator of one loop over self.paths (returns {res or 'nothing'})")
         return plan, problems
-    opv, pathv = path_of(loop.target.elts[0]), path_of(loop.target.elts[1])
+    acc = res[len("fold:"):]
+    plan["init"] = "self.path" if sym.init.get(acc) == "R(self.path)" else sym.init.get(acc, "?")
     plan["order"] = "self.paths in order"
-    # right-hand result
-    rights = [
-        s for s in loop.body if isinstance(s, ast.Assign)
-    ]
-    right = None
-    for s in rights:
-        v = s.value.value if isinstance(s.value, ast.Await) else s.value
-        if isinstance(v, ast.Call) and isinstance(v.func, ast.Attribute) and path_of(v.func.value) == pathv and v.func.attr == base:
-            if not _forwards(v, ["data"], ["filter_context"]):
-                problems.append("right operand is not evaluated with (data, filter_context=filter_context)")
-            right = path_of(s.targets[0])
-    if right is None:
-        problems.append(f"right operand is not {pathv}.{base}(...)")
-        return plan, problems
-    ifs = [s for s in loop.body if isinstance(s, ast.If)]
-    if len(ifs) != 1:
-        problems.append("no single union/intersection branch")
-        return plan, problems
-    t = ifs[0].test
-    if not (
-        isinstance(t, ast.Compare) and path_of(t.left) == opv and isinstance(t.ops[0], ast.Eq)
-        and path_of(t.comparators[0]) == "self.env.union_token"
-    ):
-        problems.append("the branch test is not `op == self.env.union_token`")
-    # union branch
-    u = ifs[0].body
-    union = None
-    for s in u:
-        if isinstance(s, ast.Expr) and isinstance(s.value, ast.Call) and callee_name(s.value) == "extend":
-            if path_of(s.value.func.value) == acc and [path_of(a) for a in s.value.args] == [right]:  # type: ignore[union-attr]
-                union = "acc then right"
-            else:
-                union = f"extend({short(s.value)})"
-        if isinstance(s, ast.Assign) and path_of(s.targets[0]) == acc and isinstance(s.value, ast.Call) and callee_name(s.value) in ("chain", "_achain"):
-            args = [path_of(a) for a in s.value.args]
-            union = "acc then right" if args == [acc, right] else f"chain({args})"
-    plan["union"] = union or "?"
-    # intersection branch
-    inter_src = inter_val = inter_container = None
-    values_var = None
-    for s in ifs[0].orelse:
-        if isinstance(s, ast.Assign) and isinstance(s.value, ast.ListComp) and path_of(s.targets[0]) != acc:
-            g = s.value.generators[0]
-            if path_of(g.iter) == right and isinstance(s.value.elt, ast.Attribute) and s.value.elt.attr == "obj" and not g.ifs:
-                values_var = path_of(s.targets[0])
-        if isinstance(s, ast.Assign) and path_of(s.targets[0]) == acc and isinstance(s.value, ast.Call) and values_var is not None:
-            # a helper generator `acc = H(acc, right_values)`: yield x for x in p0 if x.obj in p1
-            site = ctx.callgraph.by_node.get(id(s.value))
-            helper = site.callees[0] if site is not None and len(site.callees) == 1 else None
-            args = [path_of(a) for a in s.value.args]
-            if helper is not None and len(args) == 2:
-                hp = [a.arg for a in helper.node.args.args]
-                loops_h = [x for x in helper.node.body if isinstance(x, (ast.For, ast.AsyncFor))]
-                if len(hp) == 2 and len(loops_h) == 1 and path_of(loops_h[0].iter) == hp[0] and len(loops_h[0].body) == 1 and isinstance(loops_h[0].body[0], ast.If):
-                    cond = loops_h[0].body[0]
-                    elem = path_of(loops_h[0].target)
-                    ys = [y for y in cond.body if isinstance(y, ast.Expr) and isinstance(y.value, ast.Yield)]
-                    if (
-                        not cond.orelse and len(ys) == 1 and path_of(ys[0].value.value) == elem  # type: ignore[union-attr]
-                        and isinstance(cond.test, ast.Compare) and isinstance(cond.test.ops[0], ast.In)
-                        and path_of(cond.test.left) == f"{elem}.obj" and path_of(cond.test.comparators[0]) == hp[1]
-                    ):
-                        inter_src = args[0]
-                        inter_val = "value"
-                        inter_container = "right values" if args[1] == values_var else f"?{args[1]}"
-        if isinstance(s, ast.Assign) and path_of(s.targets[0]) == acc and isinstance(s.value, (ast.ListComp, ast.GeneratorExp)):
-            g = s.value.generators[0]
-            inter_src = path_of(g.iter)
-            elem = path_of(g.target)
-            if path_of(s.value.elt) != elem:
-                problems.append("intersection does not keep the left elements themselves")
-            if len(g.ifs) == 1 and isinstance(g.ifs[0], ast.Compare) and isinstance(g.ifs[0].ops[0], ast.In):
-                lv = path_of(g.ifs[0].left)
-                inter_val = "value" if lv in (elem, f"{elem}.obj") else f"?{lv}"
-                cont = path_of(g.ifs[0].comparators[0])
-                if cont == right and lv == elem:
-                    inter_container = "right values"
-                elif values_var is not None and cont == values_var and lv == f"{elem}.obj":
-                    inter_container = "right values"
-                else:
-                    inter_container = f"?{cont}"
-            else:
-                problems.append("intersection has no single membership condition")
-    plan["intersection"] = f"elements of {'acc' if inter_src == acc else inter_src} whose {inter_val} is in {inter_container}"
-    if path_of(rets[0].value) != acc:
-        problems.append("does not return the accumulator")
+    step = sym.step.get(acc, "?")
+    A = f"ACC:{acc}"
+    unions = {f"concat({A}, R(PATH))": "acc then right"}
+    inters = {
+        f"keep({A}, self, R(PATH))": "elements of acc whose value is in right values",
+        f"keep({A}, obj, objs(R(PATH)))": "elements of acc whose value is in right values",
+    }
+    plan["union"], plan["intersection"] = "?", "?"
+    for u, ud in unions.items():
+        for i, idesc in inters.items():
+            if step == f"if(U, {u}, {i})":
+                plan["union"], plan["intersection"] = ud, idesc
+    if plan["union"] == "?":
+        plan["union"] = plan["intersection"] = f"step is {step}"
     return plan, problems
 
 
